@@ -363,20 +363,59 @@ fn transform_case(rng: &mut Rng, out: &mut CaseOut, max_log: usize) {
         }
     }
     let input = buf.clone();
+    // shards of several 64-byte blocks (odd and even counts): the block under test is
+    // one column of the working set, the other columns hold unrelated data
+    let l64 = if big { 1 } else { *rng.pick(&[1usize, 1, 1, 2, 3, 5, 7]) };
+    let blk = if l64 == 1 {
+        0
+    } else if rng.chance(1, 2) {
+        l64 - 1
+    } else {
+        rng.below(l64)
+    };
+    let desc = if l64 == 1 { desc } else { format!("{desc} blocks_per_shard={l64} block={blk}") };
+    let mut wide = vec![[0u8; 64]; if l64 == 1 { 0 } else { shard_count * l64 }];
+    if l64 > 1 {
+        for s in 0..shard_count {
+            for c in 0..l64 {
+                let w = &mut wide[s * l64 + c];
+                if c == blk {
+                    *w = input[s];
+                } else if !(inverse && s >= pos + truncated && s < pos + size) {
+                    rng.fill(w);
+                }
+            }
+        }
+    }
     // a quarter of the small cases: shards at an unaligned address
     let off = if !big && rng.chance(1, 4) { *rng.pick(&[1usize, 8, 17, 33, 63]) } else { 0 };
     {
         let e = codec::dyn_engine(eng);
-        let mut m = crate::mon_c03::Misaligned::from_blocks(if off != 0 { &input } else { &input[..0] }, off);
-        let storage: &mut [[u8; 64]] = if off != 0 { m.blocks_mut() } else { &mut buf };
-        let mut data = ShardsRefMut::new(shard_count, 1, storage);
+        let src: &[[u8; 64]] = if l64 > 1 { &wide } else { &input };
+        let mut m = crate::mon_c03::Misaligned::from_blocks(if off != 0 { src } else { &src[..0] }, off);
+        let storage: &mut [[u8; 64]] = if off != 0 {
+            m.blocks_mut()
+        } else if l64 > 1 {
+            &mut wide
+        } else {
+            &mut buf
+        };
+        let mut data = ShardsRefMut::new(shard_count, l64, storage);
         if inverse {
             e.ifft(&mut data, pos, size, truncated, skew_delta);
         } else {
             e.fft(&mut data, pos, size, truncated, skew_delta);
         }
-        if off != 0 {
+        if off != 0 && l64 > 1 {
+            wide.copy_from_slice(m.blocks());
+        } else if off != 0 {
             buf.copy_from_slice(m.blocks());
+        }
+        if l64 > 1 {
+            for s in 0..shard_count {
+                buf[s] = wide[s * l64 + blk];
+            }
+            out.tag(format!("blocks-per-shard:{l64}"));
         }
     }
     let mut cache: Vec<Option<[u16; 16]>> = vec![None; 65536];
